@@ -1332,6 +1332,32 @@ VARIANTS += [
          edits=[dict(file='ipa-core/src/query/runner/hybrid.rs', find='        )\n        .await?;\n\n        let mut unique_encrypted_hybrid_reports = UniqueTagValidator::new(resharded_tags.len());\n        unique_encrypted_hybrid_reports.check_duplicates(&resharded_tags)?;\n\n        let indistinguishable_reports: Vec<IndistinguishableHybridReport<BA8, BA3>> =\n            decrypted_reports.into_iter().map(Into::into).collect();\n', replace='        )\n        .await?;\n\n        ensure_tags_unique(&resharded_tags)?;\n\n        let indistinguishable_reports: Vec<IndistinguishableHybridReport<BA8, BA3>> =\n            decrypted_reports.into_iter().map(Into::into).collect();\n'), dict(file='ipa-core/src/query/runner/hybrid.rs', find="    }\n}\n\npub async fn execute_hybrid_protocol<'a, R: PrivateKeyRegistry>(\n    prss: &'a Endpoint,\n    gateway: &'a Gateway,\n", replace="    }\n}\n\n/// Verifies that every tag this shard owns after resharding occurs exactly once.\n///\n/// ## Errors\n/// If two tags in `tags` carry the same bytes.\nfn ensure_tags_unique(tags: &[UniqueTag]) -> Result<(), Error> {\n    let mut validator = UniqueTagValidator::new(tags.len());\n    validator.check_duplicates(tags)\n}\n\npub async fn execute_hybrid_protocol<'a, R: PrivateKeyRegistry>(\n    prss: &'a Endpoint,\n    gateway: &'a Gateway,\n")]),
 ]
 
+# round B6 (second pass: C14, C19, C12, C17)
+VARIANTS += [
+    dict(prop="C17", name="eof-finished-arm-bool-then", benign=True,
+         edits=[dict(file='ipa-core/src/helpers/transport/stream/input.rs', find='            };\n\n            match this.buffer.extend(polled_item) {\n                ExtendResult::Finished if this.pending_len.is_some() => {\n                    return Poll::Ready(Some(Err(io::Error::new(\n                        io::ErrorKind::WriteZero,\n                        format!(\n                            "stream terminated with {} extra bytes",\n                            <Length as Serializable>::Size::USIZE\n                        ),\n                    ))));\n                }\n                ExtendResult::Finished => return Poll::Ready(None),\n                ExtendResult::Error(err) => return Poll::Ready(Some(Err(err))),\n                ExtendResult::Ok if available_len == 0 => {\n                    available_len = this.buffer.contiguous_len();\n                    items.reserve(1 + available_len / ESTIMATED_AVERAGE_REPORT_SIZE);\n                }\n                ExtendResult::Ok => (),\n            }\n        }\n    }\n', replace='            };\n\n            match this.buffer.extend(polled_item) {\n                ExtendResult::Finished => {\n                    // A length prefix without its payload is trailing partial data.\n                    let dangling_header = this.pending_len.is_some();\n                    return Poll::Ready(dangling_header.then(|| {\n                        Err(io::Error::new(\n                            io::ErrorKind::WriteZero,\n                            format!(\n                                "stream terminated with {} extra bytes",\n                                <Length as Serializable>::Size::USIZE\n                            ),\n                        ))\n                    }));\n                }\n                ExtendResult::Error(err) => return Poll::Ready(Some(Err(err))),\n                ExtendResult::Ok => {\n                    if available_len == 0 {\n                        available_len = this.buffer.contiguous_len();\n                        items.reserve(1 + available_len / ESTIMATED_AVERAGE_REPORT_SIZE);\n                    }\n                }\n            }\n        }\n    }\n')]),
+    dict(prop="C17", name="parse-error-outcome-if-else", benign=True,
+         edits=[dict(file='ipa-core/src/helpers/transport/stream/input.rs', find='                        // probably need `type Item = Result<Vec<Result<T, ?>>, io::Error>`, and we\n                        // need to flush (rather than discard) pending `items` from before the\n                        // error.\n                        Err(err) => {\n                            let err = io::Error::new(io::ErrorKind::InvalidData, err);\n                            if items.is_empty() {\n                                return Poll::Ready(Some(Err(err)));\n                            }\n                            *this.pending_err = Some(err);\n                            return Poll::Ready(Some(Ok(items)));\n                        }\n                    }\n                }\n', replace='                        // probably need `type Item = Result<Vec<Result<T, ?>>, io::Error>`, and we\n                        // need to flush (rather than discard) pending `items` from before the\n                        // error.\n                        Err(parse_err) => {\n                            let invalid = io::Error::new(io::ErrorKind::InvalidData, parse_err);\n                            // A deferred error is always handed out at the top of `poll_next`\n                            // before anything else is parsed, so the slot is free here.\n                            debug_assert!(\n                                this.pending_err.is_none(),\n                                "a deferred parse error must be reported before parsing resumes"\n                            );\n                            let outcome = if items.is_empty() {\n                                Err(invalid)\n                            } else {\n                                *this.pending_err = Some(invalid);\n                                Ok(items)\n                            };\n                            return Poll::Ready(Some(outcome));\n                        }\n                    }\n                }\n')]),
+    dict(prop="C17", name="readers-question-mark-some", benign=True,
+         edits=[dict(file='ipa-core/src/helpers/transport/stream/input.rs', find='        &mut self,\n        count: usize,\n    ) -> Option<Result<Vec<T>, T::DeserializationError>> {\n        self.read_bytes(count * T::Size::USIZE).map(|bytes| {\n            bytes\n                .chunks(T::Size::USIZE)\n                .map(|bytes| T::deserialize(GenericArray::from_slice(bytes)))\n                .collect::<Result<_, _>>()\n        })\n    }\n\n    /// Deserialize a single instance of `T` from the buffer with the guarantee that deserialization\n', replace='        &mut self,\n        count: usize,\n    ) -> Option<Result<Vec<T>, T::DeserializationError>> {\n        let record_size = T::Size::USIZE;\n        let raw = self.read_bytes(count * record_size)?;\n        let records = raw\n            .chunks(record_size)\n            .map(|record| T::deserialize(GenericArray::from_slice(record)))\n            .collect::<Result<_, _>>();\n        Some(records)\n    }\n\n    /// Deserialize a single instance of `T` from the buffer with the guarantee that deserialization\n'), dict(file='ipa-core/src/helpers/transport/stream/input.rs', find='    ///\n    /// Returns `None` if there is insufficient data available, and an error if deserialization fails.\n    fn try_read<T: Serializable>(&mut self) -> Option<Result<T, T::DeserializationError>> {\n        self.read_bytes(T::Size::USIZE)\n            .map(|bytes| T::deserialize(GenericArray::from_slice(&bytes)))\n    }\n\n    /// Update the buffer with the result of polling a stream.\n', replace='    ///\n    /// Returns `None` if there is insufficient data available, and an error if deserialization fails.\n    fn try_read<T: Serializable>(&mut self) -> Option<Result<T, T::DeserializationError>> {\n        let raw = self.read_bytes(T::Size::USIZE)?;\n        Some(T::deserialize(GenericArray::from_slice(&raw)))\n    }\n\n    /// Update the buffer with the result of polling a stream.\n')]),
+    dict(prop="C17", name="buffered-stream-cmp-match", benign=True,
+         edits=[dict(file='ipa-core/src/helpers/transport/stream/buffered.rs', find='use std::{\n    mem,\n    num::NonZeroUsize,\n    pin::Pin,\n', replace='use std::{\n    cmp::Ordering,\n    mem,\n    num::NonZeroUsize,\n    pin::Pin,\n'), dict(file='ipa-core/src/helpers/transport/stream/buffered.rs', find='        }\n\n        let mut this = self.as_mut().project();\n        loop {\n            // If we are at capacity, return what we have\n            if this.buffer.len() >= *this.sz {\n                // if we have more than we need in the buffer, split it\n                // otherwise, return the whole buffer to the reader\n                let next = if this.buffer.len() > *this.sz {\n                    this.buffer.drain(..*this.sz).collect()\n                } else {\n                    take_next(this.buffer)\n                };\n                break Poll::Ready(Some(Ok(Bytes::from(next))));\n            }\n\n', replace='        }\n\n        let mut this = self.as_mut().project();\n        let sz = *this.sz;\n        loop {\n            // If we are at capacity, return what we have:\n            // if we have more than we need in the buffer, split it\n            // otherwise, return the whole buffer to the reader\n            let next: Option<Vec<u8>> = match this.buffer.len().cmp(&sz) {\n                Ordering::Greater => Some(this.buffer.drain(..sz).collect()),\n                Ordering::Equal => Some(take_next(this.buffer)),\n                Ordering::Less => None,\n            };\n            if let Some(next) = next {\n                break Poll::Ready(Some(Ok(Bytes::from(next))));\n            }\n\n')]),
+    dict(prop="C19", name="close-loop-over-iter", benign=True,
+         edits=[dict(file='ipa-core/src/protocol/context/mod.rs', find='                        Ok(Some(((my_shard, None), (input, send_channels, i))))\n                    }\n                } else {\n                    for (last_record, send_channel) in send_channels.values() {\n                        send_channel.close(*last_record).await;\n                    }\n                    Ok(None)\n', replace='                        Ok(Some(((my_shard, None), (input, send_channels, i))))\n                    }\n                } else {\n                    for (dest_shard, (last_record, send_channel)) in send_channels.iter() {\n                        tracing::trace!(\n                            "resharding: closing send channel to {dest_shard:?} at {last_record:?}"\n                        );\n                        send_channel.close(*last_record).await;\n                    }\n                    Ok(None)\n')]),
+    dict(prop="C19", name="size-hint-guard-hoisted-record-id", benign=True,
+         edits=[dict(file='ipa-core/src/protocol/context/mod.rs', find='                // Process more data as it comes in, or close the sending channels, if there is nothing\n                // left.\n                if let Some(val) = input.try_next().await? {\n                    if usize::try_from(*i).unwrap() >= input_len {\n                        return Err(crate::error::Error::RecordIdOutOfRange {\n                            record_id: RecordId::from(*i),\n                            total_records: input_len,\n                        });\n                    }\n\n                    let dest_shard = shard_picker(ctx, RecordId::from(*i), &val);\n                    *i += 1;\n                    if dest_shard == my_shard {\n                        Ok(Some(((my_shard, Some(val)), (input, send_channels, i))))\n', replace='                // Process more data as it comes in, or close the sending channels, if there is nothing\n                // left.\n                if let Some(val) = input.try_next().await? {\n                    let input_record_id = RecordId::from(*i);\n                    if usize::from(input_record_id) >= input_len {\n                        return Err(crate::error::Error::RecordIdOutOfRange {\n                            record_id: input_record_id,\n                            total_records: input_len,\n                        });\n                    }\n\n                    let dest_shard = shard_picker(ctx, input_record_id, &val);\n                    *i += 1;\n                    if dest_shard == my_shard {\n                        Ok(Some(((my_shard, Some(val)), (input, send_channels, i))))\n')]),
+    dict(prop="C01", name="prf-report-built-in-inner-closure", benign=True,
+         edits=[dict(file='ipa-core/src/protocol/hybrid/oprf.rs', find='\n    let report_stream = prf_of_match_keys\n        .zip(stream::iter(input_rows))\n        // map from (Result<X>, T) to Result<(X, T)>\n        .map(|(mk, input)| mk.map(|mk| (mk, input)))\n        .map_ok(|(prf_of_match_key, input)| PrfHybridReport {\n            match_key: prf_of_match_key,\n            value: input.value,\n            breakdown_key: input.breakdown_key,\n        });\n\n    // reshard reports based on OPRF values. This ensures at the end of this function\n', replace='\n    let report_stream = prf_of_match_keys\n        .zip(stream::iter(input_rows))\n        // map from (Result<X>, T) to Result<PrfHybridReport>\n        .map(|(mk, input)| {\n            mk.map(|prf_of_match_key| PrfHybridReport {\n                match_key: prf_of_match_key,\n                value: input.value,\n                breakdown_key: input.breakdown_key,\n            })\n        });\n\n    // reshard reports based on OPRF values. This ensures at the end of this function\n')]),
+    dict(prop="C12", name="oprf-padding-flat-map", benign=True,
+         edits=[dict(file='ipa-core/src/protocol/ipa_prf/oprf_padding/mod.rs', find='pub mod insecure;\npub mod step;\n\nuse std::iter::repeat_with;\n\n#[cfg(any(test, feature = "test-fixture", feature = "cli"))]\npub use insecure::DiscreteDp as InsecureDiscreteDp;\nuse rand::Rng;\n', replace='pub mod insecure;\npub mod step;\n\n#[cfg(any(test, feature = "test-fixture", feature = "cli"))]\npub use insecure::DiscreteDp as InsecureDiscreteDp;\nuse rand::Rng;\n'), dict(file='ipa-core/src/protocol/ipa_prf/oprf_padding/mod.rs', find='                    total_number_of_fake_rows += sample * cardinality;\n\n                    padding_input_rows.extend(\n                        repeat_with(|| {\n                            let dummy_mk: BA64 = rng.r#gen();\n                            std::iter::repeat_n(\n                                IndistinguishableHybridReport::from(\n', replace='                    total_number_of_fake_rows += sample * cardinality;\n\n                    padding_input_rows.extend(\n                        // this means there will be `sample` many unique\n                        // matchkeys to add each with cardinality = `cardinality`\n                        (0..sample).flat_map(|_| {\n                            let dummy_mk: BA64 = rng.r#gen();\n                            std::iter::repeat_n(\n                                IndistinguishableHybridReport::from(\n'), dict(file='ipa-core/src/protocol/ipa_prf/oprf_padding/mod.rs', find='                                ),\n                                cardinality as usize,\n                            )\n                        })\n                        // this means there will be `sample` many unique\n                        // matchkeys to add each with cardinality = `cardinality`\n                        .take(sample as usize)\n                        .flatten(),\n                    );\n                }\n            }\n', replace='                                ),\n                                cardinality as usize,\n                            )\n                        }),\n                    );\n                }\n            }\n')]),
+    dict(prop="C12", name="excluded-helper-replicated-zero", benign=True,
+         edits=[dict(file='ipa-core/src/protocol/dp/mod.rs', find='            };\n            let shifted_truncated_discrete_laplace =\n                ShiftedTruncatedDiscreteLaplace::new(noise_params, OV::BITS)?;\n            std::array::from_fn(|_i| {\n                shifted_truncated_discrete_laplace.sample_shares(rng, direction_to_excluded_helper)\n            })\n        } else {\n            //  before we can do integer_add we need the excluded Helper to set its shares to zero\n            // for these noise values.\n            std::array::from_fn(|_i| Replicated::new(OV::ZERO, OV::ZERO))\n        };\n\n    let noise_shares_vectorized: BitDecomposed<Replicated<Boolean, B>> =\n', replace='            };\n            let shifted_truncated_discrete_laplace =\n                ShiftedTruncatedDiscreteLaplace::new(noise_params, OV::BITS)?;\n            // one independent draw per histogram bin, in bin order\n            std::array::from_fn(|_| {\n                shifted_truncated_discrete_laplace.sample_shares(rng, direction_to_excluded_helper)\n            })\n        } else {\n            //  before we can do integer_add we need the excluded Helper to set its shares to zero\n            // for these noise values.\n            std::array::from_fn(|_| Replicated::<OV>::ZERO)\n        };\n\n    let noise_shares_vectorized: BitDecomposed<Replicated<Boolean, B>> =\n')]),
+    dict(prop="C14", name="take-head-tail-binding", benign=True,
+         edits=[dict(file='ipa-core/src/helpers/buffers/circular.rs', find='        let delta = std::cmp::min(self.read_size, self.len());\n\n        let mut ret = Vec::with_capacity(delta);\n        let range = self.range(self.read, delta);\n\n        // If the read range wraps around, we need to split it\n        if range.end() < range.start() {\n            ret.extend_from_slice(&self.data[*range.start()..]);\n            ret.extend_from_slice(&self.data[..=*range.end()]);\n        } else {\n            ret.extend_from_slice(&self.data[range]);\n        }\n\n        self.read = self.inc(self.read, delta);\n', replace='        let delta = std::cmp::min(self.read_size, self.len());\n\n        let mut ret = Vec::with_capacity(delta);\n        let (start, end) = self.range(self.read, delta).into_inner();\n\n        // If the read range wraps around, we need to split it\n        if end < start {\n            let (head, tail) = (&self.data[start..], &self.data[..=end]);\n            ret.extend_from_slice(head);\n            ret.extend_from_slice(tail);\n        } else {\n            ret.extend_from_slice(&self.data[start..=end]);\n        }\n\n        self.read = self.inc(self.read, delta);\n')]),
+    dict(prop="C14", name="spare-extend-split-at", benign=True,
+         edits=[dict(file='ipa-core/src/helpers/buffers/unordered_receiver.rs', find='            let needed = sz - remainder;\n            let mut tmp = GenericArray::<u8, M::Size>::default();\n            tmp[..remainder].copy_from_slice(&self.buf[self.offset..]);\n            tmp[remainder..].copy_from_slice(&v[..needed]);\n            self.replace(&v[needed..]);\n            M::deserialize(&tmp)\n        } else {\n            self.replace(&v[sz..]);\n            M::deserialize(GenericArray::from_slice(&v[..sz]))\n        };\n        Some(m)\n    }\n', replace='            let needed = sz - remainder;\n            let mut tmp = GenericArray::<u8, M::Size>::default();\n            tmp[..remainder].copy_from_slice(&self.buf[self.offset..]);\n            let (head, rest) = v.split_at(needed);\n            tmp[remainder..].copy_from_slice(head);\n            self.replace(rest);\n            M::deserialize(&tmp)\n        } else {\n            // The message is entirely within the new chunk; keep what follows it.\n            let (head, rest) = v.split_at(sz);\n            self.replace(rest);\n            M::deserialize(GenericArray::from_slice(head))\n        };\n        Some(m)\n    }\n')]),
+]
+
 # rules shared between properties: the same edit must be reported under the other property too
 VARIANTS += [dict(v, prop="C05", name=v["name"] + "@C05") for v in VARIANTS
              if v["name"] in ("h1-shuffle-empty-shard-leaves", "sharded-shuffle-empty-shard-leaves", "reshard-closes-channels-on-input-error", "reshard-closes-before-matching-none")]
